@@ -24,6 +24,9 @@ def contexts(name: str):
                   "n0": lambda dims: J(S.number(dims[0])), "i0": lambda dims: J(np.eye(dims[0])),
                   "g2": lambda dims: J(_gen(dims[2], 5)), "g1": lambda dims: J(_gen(dims[1], 6)), "g0": lambda dims: J(_gen(dims[0], 7))},
         "custom": {"g": lambda dims: J(_gen(dims[0], 3))},
+        # custom states keep their dimension; Expression composite types pass dims == 1 for them, so the context fixes it
+        "twoc": {"z": lambda dims: J(S.Z), "gc1": lambda dims: J(_gen(5, 8))},
+        "threec": {"z": lambda dims: J(S.Z), "x": lambda dims: J(S.X), "gc1": lambda dims: J(_gen(5, 9))},
     }
     return table[name]
 
